@@ -45,8 +45,10 @@ var (
 	poolInt   = []string{"1500", "0", "-1", "65535", "65536", "99999999999999999999", "abc", "1.5", " 5", "68", "0x10", "1e3", "+7"}
 	poolURL   = []string{"tftp://10.0.0.5/pxelinux.0", "http://boot.example.org/ipxe.efi", "https://[2001:db8::5]:8443/a?params=x", "ftp://h/p", "bootfile.efi", "", "://bad", "tftp://" + strings.Repeat("h", 300) + "/x", "http://h/" + strings.Repeat("p", 300), "tftp://h/%zz", "http://h/p?params=" + strings.Repeat("q", 70000), "\x00", "tftp://user:pw@h:69/p#frag",
 		"http://[2001:db8::1]/" + strings.Repeat("\u00e9", 21845), "http://h/?params=" + strings.Repeat("\u00e9", 30000), "http://h/" + strings.Repeat("%41", 21000)}
-	poolLabel = []string{"example.org", "a.b.c.d.e", strings.Repeat("l", 63) + ".org", strings.Repeat("l", 64) + ".org", strings.Repeat("x", 255), "", "a..b", "example.com.", ".", "münchen.example", "a b", strings.Repeat("a.", 130) + "z", "\x00.org"}
-	poolMisc  = []string{"", " ", "autorefresh", "-", "0", "x", "\xff\xfe"}
+	poolLabel = []string{"example.org", "a.b.c.d.e", strings.Repeat("l", 63) + ".org", strings.Repeat("l", 64) + ".org", strings.Repeat("x", 255), "", "a..b", "example.com.", ".", "münchen.example", "a b", strings.Repeat("a.", 130) + "z", "\x00.org",
+		// labels counted in characters are not labels counted in bytes
+		strings.Repeat("\U0001F600", 50) + ".example", strings.Repeat("\U0001F600", 15) + ".example", strings.Repeat("é", 40) + ".example", strings.Repeat("\U00020000", 63) + ".org"}
+	poolMisc = []string{"", " ", "autorefresh", "-", "0", "x", "\xff\xfe"}
 )
 
 func pick(rng *rand.Rand, pools ...[]string) string {
@@ -153,12 +155,14 @@ func genSetupVector(rng *rand.Rand, idx int) (plugin string, v6 bool, args []str
 		args = rep(arity(1), append([]string{"255.255.255.0", "255.255.255.255", "128.0.0.0", "255.0.255.0", "0.0.0.0", "255.255.255.256", "ffff:ff00::", "::ffff:255.255.0.0"}, poolAddr4...))
 	case "prefix":
 		sz := []string{"64", "56", "48", "128", "0", "-1", "129", "abc", "60", "72", ""}
-		args = []string{argOf(rng, []string{"2001:db8::/48", "2001:db8::/56", "2001:db8::/64", "::/0", "2001:db8::/128", "10.0.0.0/8", "2001:db8::1/64", "2001:db8::", "fe80::/10"}), argOf(rng, sz)}
-		// Pools of 2^25..2^63 blocks are accepted by the code with a warning and then
-		// need terabytes of bitmap: resource exhaustion is outside the quantifier.
+		args = []string{argOf(rng, []string{"2001:db8::/48", "2001:db8::/56", "2001:db8::/64", "::/0", "2001:db8::/128", "10.0.0.0/8", "2001:db8::1/64", "2001:db8::", "fe80::/10", "2001:db8::/65", "2001:db8::/70"}), argOf(rng, sz)}
+		// Pools of 2^25..2^55 blocks are accepted by the code with a warning and then need gigabytes to
+		// terabytes of bitmap: whether that works is a matter of the machine's memory (resource exhaustion
+		// is outside the quantifier). From 2^56 blocks on no machine can hold the bitmap - what the code
+		// does with such a pool is a matter of logic again, and those vectors are driven.
 		if _, n, err := net.ParseCIDR(args[0]); err == nil {
 			pl, _ := n.Mask.Size()
-			if sz, err := strconv.Atoi(args[1]); err == nil && sz-pl > 24 && sz-pl < 64 {
+			if sz, err := strconv.Atoi(args[1]); err == nil && sz-pl > 24 && sz-pl < 56 {
 				args[1] = strconv.Itoa(pl + rng.Intn(12))
 			}
 		}
@@ -323,6 +327,11 @@ func (setupEngine) Run(ctx *fw.Ctx, cs any) {
 			}
 			if sig, msg := roundTrip(proto6, b, r); sig != "" {
 				ctx.Viol("C19", sig+":"+c.Plugin, "%s was accepted at start-up; reply to {%s}: %s", conf, desc[i], msg)
+			} else if c.Plugin == "searchdomains" && !c.OtherProto && plainNames(c.Args) {
+				// the same options come back: the list a client decodes has as many names as were configured
+				if n, ok := domainCount(proto6, b); ok && n != len(c.Args) {
+					ctx.Viol("C19", "domain-list-truncated:"+c.Plugin, "%s was accepted at start-up; the reply to {%s} carries a domain search list that decodes to %d names, %d were configured", conf, desc[i], n, len(c.Args))
+				}
 			}
 		}
 	}
@@ -338,6 +347,39 @@ func firstLines(s string, n int) string {
 		l = l[:n]
 	}
 	return strings.Join(l, "\n")
+}
+
+// plainNames: every argument is a name made of non-empty labels (how names with empty labels are to be
+// encoded is not something the statement fixes).
+func plainNames(args []string) bool {
+	for _, a := range args {
+		if a == "" || strings.Contains(a, "..") || strings.HasPrefix(a, ".") || strings.HasSuffix(a, ".") || strings.ContainsAny(a, "\x00 ") {
+			return false
+		}
+	}
+	return len(args) > 0
+}
+
+// domainCount decodes the domain search list of a reply (option 119 / 24); ok=false when there is none.
+func domainCount(v6 bool, b []byte) (int, bool) {
+	if v6 {
+		if _, inner, err := pkt.Unwrap6(b); err == nil {
+			if m, err := pkt.ParseMsg6(inner); err == nil {
+				if vs, n := m.Get(24); n > 0 {
+					names, ok := model.DecodeLabels(vs[0])
+					return len(names), ok
+				}
+			}
+		}
+		return 0, false
+	}
+	if r, err := pkt.Parse4(b); err == nil {
+		if v, n := r.Get(119); n > 0 {
+			names, ok := model.DecodeLabels(v)
+			return len(names), ok
+		}
+	}
+	return 0, false
 }
 
 // roundTrip: the bytes the server sent parse back, re-serialise identically and
